@@ -79,7 +79,24 @@ def classify(inst):
     for p, c in leaf:
         if defp.startswith(p) or path.startswith(p):
             return c, "std leaf table"
+    if inst.local and inst.defp in _CTORS:
+        return "SAFE", "constructor of a workspace tuple struct / enum variant used as a function (builds a value, no effect)"
     return "UNCLASSIFIED", "no MIR and no class for `%s`" % path
+
+
+_CTORS = set()
+
+
+def register_ctors(F):
+    """definition paths of workspace ADT constructors (`Word` for `struct Word(u16)`, `Kind::Variant` for tuple variants)"""
+    if getattr(F, "_ctors_done", False):
+        return
+    for c, a in F.crate_items("adts"):
+        if len(a["variants"]) == 1:
+            _CTORS.add(a["path"])
+        for v in a["variants"]:
+            _CTORS.add(a["path"] + "::" + v["name"])
+    F._ctors_done = True
 
 
 def is_panicking_api(inst):
@@ -99,6 +116,7 @@ class Cone:
     """everything reachable from a set of roots; leaves classified; parent pointers for witnesses"""
 
     def __init__(self, F, roots, stop=None):
+        register_ctors(F)
         self.F = F
         self.roots = roots
         st = stop or (lambda i: False)
